@@ -64,6 +64,9 @@ def profile(h=0):
                   "m*", "m?", "m[01]", "rate[5m]", "rate5", ".*", "m.", "%", "m\\d"]  # names that are patterns in some syntax
         p.extra_tag_keys = [f"key{i}" for i in range(14)]
         p.extra_tag_vals = [f"v{i}" for i in range(25)] + ["12", "1.5", "x" * 300]
+    if h % 10 == 8:  # strings that are different but equal under some unicode normalisation / folding (NFC, NFKC, casefold)
+        p.meas = ["m0", "caf\u00e9", "cafe\u0301", "m2", "m\u00b2", "cpu", "\uff43\uff50\uff55", "stra\u00dfe", "strasse"]
+        p.extra_tag_vals = ["m0", "caf\u00e9", "cafe\u0301", "m2", "m\u00b2", "cpu", "\uff43\uff50\uff55", "stra\u00dfe", "strasse"][1:]
     if h % 10 == 6:  # a few measurement names that are patterns in some syntax, next to names they would match
         p.meas = ["m0", "m1", "m*", "m?", "m[01]", "rate[5m]", "rate5", "m."]
     if h % 20 == 17:  # instants at and around the epoch (timestamp 0.0, negative timestamps) and year 1900
@@ -80,6 +83,13 @@ def profile(h=0):
         p.max_rows = 45
         p.max_time_probes = 40
         p.min_ops, p.max_ops = 4, 10
+    return p
+
+
+def _with_big_ints(p, cfg, h):
+    """Memory storage keeps ints exactly: integers beyond 2**53 (CSV stores numbers as floats - a listed C05 finding)."""
+    if cfg["storage"] == "mem" and h % 5 == 1:
+        p.extra_field_vals = [2**53, 2**53 + 1, -(2**53) - 1, 10**17 + 3]
     return p
 
 
@@ -112,7 +122,7 @@ def run(res, tier, seed, shard, nshards):
         for ci, cfg in enumerate(CONFIGS):
             for h in range(N_HIST[tier]):
                 rng = rng_for("C01", tier, seed, shard, ci, h)
-                s = HistoryRunner(res, _cfg_variant(cfg, h), scratch, rng, profile(h), judge).run()
+                s = HistoryRunner(res, _cfg_variant(cfg, h), scratch, rng, _with_big_ints(profile(h), cfg, h), judge).run()
                 if h == 0 and shard == 0 and ci in (0, 2):
                     res.sample({"config": cfg_name(cfg), "first_ops": s.log[:6]})
     cover.collect(res)
